@@ -54,7 +54,10 @@ func genLogical(r *rng) []logical {
 		}
 		return pick(r, []string{"x", "p1", "a/b", "foo.bar", "id-7"})
 	}
-	pathId := func() string { return pick(r, []string{"x", "p1", "a/b", "foo.bar", "id-7"}) }
+	// ids that travel in the URL path: the client percent-encodes them (escPath), the kernel must see them unaltered
+	pathId := func() string {
+		return pick(r, []string{"x", "p1", "a/b", "foo.bar", "id-7", "orders+eu/2024", "a+b", "with space", "100%", "q?x=1", "semi;colon", "ü/ß", "a//b", "tail/"})
+	}
 	ttl32 := func() int { return pick(r, []int{0, 0, 1, 5000, 2147483647, -1}) }
 	ttl64 := func() int64 { return pick(r, []int64{0, 0, 1, 5000, 1 << 40, -1}) }
 	counter := func() int { return pick(r, []int{1, 1, 2, 7, 2147483647, 0, -1}) }
@@ -176,6 +179,10 @@ func cprJSON(c *t_api.CreatePromiseRequest) map[string]any {
 	return m
 }
 
+// what a client library does with an id that goes into the path (net/url PathEscape): every byte outside the
+// unreserved set and a few sub-delimiters is percent-encoded, '/' included; '+' is a legal path character and stays
+func escPath(id string) string { return url.PathEscape(id) }
+
 // the HTTP expression of a logical request
 func exprHTTP(l logical) rawHTTP {
 	j := func(v any) string { b, _ := json.Marshal(v); return string(b) }
@@ -216,7 +223,7 @@ func exprHTTP(l logical) rawHTTP {
 	w := l.want
 	switch w.Kind {
 	case t_api.ReadPromise:
-		return rawHTTP{"GET", "/promises/" + w.ReadPromise.Id, "", h}
+		return rawHTTP{"GET", "/promises/" + escPath(w.ReadPromise.Id), "", h}
 	case t_api.CreatePromise:
 		setKey(w.CreatePromise.IdempotencyKey, &w.CreatePromise.Strict)
 		return rawHTTP{"POST", "/promises", j(cprJSON(w.CreatePromise)), h}
@@ -228,7 +235,7 @@ func exprHTTP(l logical) rawHTTP {
 		x := w.CompletePromise
 		setKey(x.IdempotencyKey, &x.Strict)
 		st := map[promise.State]string{promise.Resolved: "RESOLVED", promise.Rejected: "REJECTED", promise.Canceled: "REJECTED_CANCELED"}[x.State]
-		return rawHTTP{"PATCH", "/promises/" + x.Id, j(map[string]any{"state": st, "value": valueJSON(x.Value)}), h}
+		return rawHTTP{"PATCH", "/promises/" + escPath(x.Id), j(map[string]any{"state": st, "value": valueJSON(x.Value)}), h}
 	case t_api.CreateCallback:
 		x := w.CreateCallback
 		m := map[string]any{"Id": x.Id, "promiseId": x.PromiseId, "rootPromiseId": x.RootPromiseId, "timeout": x.Timeout}
@@ -244,9 +251,9 @@ func exprHTTP(l logical) rawHTTP {
 		}
 		return rawHTTP{"POST", "/subscriptions", j(m), h}
 	case t_api.ReadSchedule:
-		return rawHTTP{"GET", "/schedules/" + w.ReadSchedule.Id, "", h}
+		return rawHTTP{"GET", "/schedules/" + escPath(w.ReadSchedule.Id), "", h}
 	case t_api.DeleteSchedule:
-		return rawHTTP{"DELETE", "/schedules/" + w.DeleteSchedule.Id, "", h}
+		return rawHTTP{"DELETE", "/schedules/" + escPath(w.DeleteSchedule.Id), "", h}
 	case t_api.CreateSchedule:
 		x := w.CreateSchedule
 		setKey(x.IdempotencyKey, nil)
